@@ -67,6 +67,7 @@ type Visit struct {
 	Post    string `json:"post"` // action returned by post ("" allowed)
 	PostErr bool   `json:"post_err,omitempty"`
 	Payload int    `json:"payload,omitempty"` // 0: unique pointer payloads; >0: index into the zoo (prep and exec values)
+	FBNil   bool   `json:"fb_nil,omitempty"`  // a rescuing fallback returns (nil, nil): nil then IS the exec outcome
 }
 
 // Conn is one Connect call (To < 0 means nil target).
@@ -89,8 +90,9 @@ type NodeSpec struct {
 	HasFB   bool      `json:"has_fb,omitempty"` // fallback installed (only for kinds that can)
 	ErrKind int       `json:"err_kind,omitempty"`
 	WaitMs  int       `json:"wait_ms,omitempty"` // retry wait (kinds with retry settings)
-	Conc    int       `json:"conc,omitempty"`   // > 0: a batch concurrency (and stop-on-error) is configured on this NON-batch node: must change nothing
-	Visits  []Visit   `json:"visits,omitempty"` // script per visit; beyond the script the node succeeds at once and returns EndAction
+	LoopN   int       `json:"loop_n,omitempty"`  // > 0: the node returns action "loop" on its first LoopN visits and "exit" afterwards (Visits is ignored): long cycles
+	Conc    int       `json:"conc,omitempty"`    // > 0: a batch concurrency (and stop-on-error) is configured on this NON-batch node: must change nothing
+	Visits  []Visit   `json:"visits,omitempty"`  // script per visit; beyond the script the node succeeds at once and returns EndAction
 	Flow    *FlowSpec `json:"flow,omitempty"`
 }
 
@@ -105,13 +107,16 @@ type Inject struct {
 
 // Scenario is a complete case.
 type Scenario struct {
-	Nodes      []NodeSpec `json:"nodes"`
-	Root       int        `json:"root"`
-	Runs       int        `json:"runs"`                   // sequential runs of the same objects (≥1)
-	UseFlowRun bool       `json:"use_flow_run,omitempty"` // call Flow.Run instead of flyt.Run when root is a flow
-	Inject     Inject     `json:"inject,omitempty"`
-	FreshStore bool       `json:"fresh_store,omitempty"` // new store for every run
-	Rewire     []Rewire   `json:"rewire,omitempty"`      // Connect calls made between runs
+	Nodes            []NodeSpec `json:"nodes"`
+	Root             int        `json:"root"`
+	Runs             int        `json:"runs"`                   // sequential runs of the same objects (≥1)
+	UseFlowRun       bool       `json:"use_flow_run,omitempty"` // call Flow.Run instead of flyt.Run when root is a flow
+	Inject           Inject     `json:"inject,omitempty"`
+	FreshStore       bool       `json:"fresh_store,omitempty"`        // new store for every run
+	Rewire           []Rewire   `json:"rewire,omitempty"`             // Connect calls made between runs
+	ShareBase        bool       `json:"share_base,omitempty"`         // struct nodes with the same budget embed ONE shared *BaseNode (shared configuration, distinct nodes)
+	MaxCallbacks     int        `json:"max_callbacks,omitempty"`      // runaway bound override for long-cycle scenarios
+	StrayFlowRetries int        `json:"stray_flow_retries,omitempty"` // > 0: an unrelated flow object gets retries configured on its BaseNode before the run: must not affect this hierarchy
 }
 
 // Rewire is a Connect call made on flow node Flow after run number AfterRun (0-based) has finished.
@@ -182,6 +187,9 @@ type Exec struct {
 	realTimeout bool
 	tripped     atomic.Bool
 	runaway     atomic.Bool
+	sharedBase  map[int]*flyt.BaseNode
+	seenCtx     []context.Context
+	ctxFlagged  bool
 }
 
 type core struct {
@@ -197,11 +205,15 @@ type core struct {
 	haveVisit bool
 }
 
-// fakeCtx is a context whose error turns to DeadlineExceeded when tripped.
+// fakeCtx is a context whose error turns to DeadlineExceeded when tripped. With tripAt > 0 it trips itself right
+// AFTER its tripAt-th Err() call has returned nil: the cancellation arrives just after one of the library's own checks.
 type fakeCtx struct {
 	context.Context
-	done chan struct{}
-	err  atomic.Value
+	done    chan struct{}
+	err     atomic.Value
+	calls   atomic.Int64
+	tripAt  int64
+	onTrip  func()
 }
 
 func newFakeCtx() *fakeCtx               { return &fakeCtx{Context: context.Background(), done: make(chan struct{})} }
@@ -209,6 +221,12 @@ func (c *fakeCtx) Done() <-chan struct{} { return c.done }
 func (c *fakeCtx) Err() error {
 	if e, ok := c.err.Load().(error); ok {
 		return e
+	}
+	if c.tripAt > 0 && c.calls.Add(1) == c.tripAt {
+		if c.onTrip != nil {
+			c.onTrip()
+		}
+		c.trip()
 	}
 	return nil
 }
@@ -237,6 +255,28 @@ func (x *Exec) setRet(seq int, id string) {
 }
 
 // enter is called at the entry of every user callback: it performs the injection.
+// sawCtx remembers the contexts callbacks were given and reports one that has been cancelled although the run's
+// own context is alive (resources a callback bound to its context would die with it).
+func (x *Exec) sawCtx(ctx context.Context) string {
+	if ctx == nil || x.ctx == nil || x.ctx.Err() != nil {
+		return ""
+	}
+	for _, c := range x.seenCtx {
+		if c.Err() != nil {
+			return "a context handed to an earlier callback of this run has been cancelled although the run's context is alive"
+		}
+	}
+	for _, c := range x.seenCtx {
+		if c == ctx {
+			return ""
+		}
+	}
+	if len(x.seenCtx) < 64 {
+		x.seenCtx = append(x.seenCtx, ctx)
+	}
+	return ""
+}
+
 func (x *Exec) enter() (ordinal int) {
 	x.mu.Lock()
 	ordinal = x.seq
@@ -324,6 +364,12 @@ func errID(node, visit int, phase string, attempt int) string {
 
 func (c *core) script() Visit {
 	v := c.visit - 1
+	if c.spec.LoopN > 0 {
+		if v < c.spec.LoopN {
+			return Visit{FirstOK: 1, Post: "loop"}
+		}
+		return Visit{FirstOK: 1, Post: "exit"}
+	}
 	if v >= 0 && v < len(c.spec.Visits) {
 		return c.spec.Visits[v]
 	}
@@ -346,8 +392,15 @@ const RunawayLimit = 5000
 
 var errRunaway = errors.New("harness: runaway run cut off")
 
+func (x *Exec) runawayLimit() int {
+	if x.Sc.MaxCallbacks > 0 {
+		return x.Sc.MaxCallbacks
+	}
+	return RunawayLimit
+}
+
 func (c *core) prep(ctx context.Context, shared *flyt.SharedStore) (any, error) {
-	if c.x.enter() > RunawayLimit {
+	if lim := c.x.runawayLimit(); c.x.enter() > lim {
 		c.x.runaway.Store(true)
 		return nil, errRunaway
 	}
@@ -358,6 +411,10 @@ func (c *core) prep(ctx context.Context, shared *flyt.SharedStore) (any, error) 
 	c.produced = nil
 	v := c.visit - 1
 	e := Event{Node: c.id, Visit: v, Phase: "prep", StoreOK: shared == c.x.store, PrepOK: true, CtxDone: ctx.Err() != nil}
+	if msg := c.x.sawCtx(ctx); msg != "" && !c.x.ctxFlagged {
+		c.x.ctxFlagged = true
+		c.x.record(Event{Node: c.id, Visit: v, Phase: "anomaly", Note: "ctx: " + msg})
+	}
 	seq := c.x.record(e)
 	s := c.script()
 	if s.PrepErr {
@@ -386,7 +443,8 @@ func (c *core) exec(ctx context.Context, prepRes any) (any, error) {
 	c.x.setRet(seq, errID(c.id, v, "exec", c.attempt))
 	err := c.x.mkErr(c.spec.ErrKind, errID(c.id, v, "exec", c.attempt))
 	c.attErrs = append(c.attErrs, err)
-	return nil, err
+	// a failing attempt may well return a (meaningless) value next to its error: it must never reach post
+	return &payload{Node: c.id, Visit: v, Attempt: c.attempt, What: "garbage-of-failed-attempt"}, err
 }
 
 func (c *core) fallback(prepRes any, err error) (any, error) {
@@ -404,7 +462,11 @@ func (c *core) fallback(prepRes any, err error) (any, error) {
 	s := c.script()
 	if s.FBErr {
 		c.x.setRet(seq, errID(c.id, v, "fallback", 0))
-		return nil, c.x.mkErr(c.spec.ErrKind, errID(c.id, v, "fallback", 0))
+		return &payload{Node: c.id, Visit: v, What: "garbage-of-failed-fallback"}, c.x.mkErr(c.spec.ErrKind, errID(c.id, v, "fallback", 0))
+	}
+	if s.FBNil {
+		c.produced = nil
+		return nil, nil
 	}
 	c.produced = c.mkPayload("fallback", 0)
 	return c.produced, nil
@@ -509,8 +571,10 @@ type plainRetryNode struct {
 	n int
 }
 
-func (n *plainRetryNode) GetMaxRetries() int     { return n.n }
-func (n *plainRetryNode) GetWait() time.Duration { return time.Duration(n.c.spec.WaitMs) * time.Millisecond }
+func (n *plainRetryNode) GetMaxRetries() int { return n.n }
+func (n *plainRetryNode) GetWait() time.Duration {
+	return time.Duration(n.c.spec.WaitMs) * time.Millisecond
+}
 
 type plainRetryFBNode struct{ plainRetryNode }
 
@@ -546,6 +610,9 @@ func (x *Exec) build(id int) flyt.Node {
 		}
 		v, err := c.exec(ctx, p.Value())
 		if err != nil {
+			if c.attempt%2 == 1 {
+				return flyt.NewErrorResult(err), err // an error Result AND the error: the error counts
+			}
 			return flyt.Result{}, err
 		}
 		return flyt.NewResult(v), nil
@@ -557,11 +624,23 @@ func (x *Exec) build(id int) flyt.Node {
 		return c.post(ctx, s, p.Value(), e.Value())
 	}
 	var n flyt.Node
+	mkBase := func() *flyt.BaseNode {
+		if !x.Sc.ShareBase || spec.WaitMs > 0 || spec.Conc > 0 {
+			return flyt.NewBaseNode(baseOpts...)
+		}
+		if x.sharedBase == nil {
+			x.sharedBase = map[int]*flyt.BaseNode{}
+		}
+		if x.sharedBase[spec.N] == nil {
+			x.sharedBase[spec.N] = flyt.NewBaseNode(flyt.WithMaxRetries(spec.N))
+		}
+		return x.sharedBase[spec.N]
+	}
 	switch spec.Kind {
 	case KBase:
-		n = &baseNode{BaseNode: flyt.NewBaseNode(baseOpts...), c: c}
+		n = &baseNode{BaseNode: mkBase(), c: c}
 	case KBaseFB:
-		n = &baseFBNode{baseNode{BaseNode: flyt.NewBaseNode(baseOpts...), c: c}}
+		n = &baseFBNode{baseNode{BaseNode: mkBase(), c: c}}
 	case KPlain:
 		n = &plainNode{c: c}
 	case KPlainFB:
@@ -662,6 +741,10 @@ func NewExec(sc *Scenario) *Exec {
 	x := &Exec{Sc: sc, errs: map[string]error{}, cores: make([]*core, len(sc.Nodes)), nodes: make([]flyt.Node, len(sc.Nodes)), cancelSeq: -1}
 	x.zoo = sharedZoo
 	x.build(sc.Root)
+	if sc.StrayFlowRetries > 0 {
+		stray := flyt.NewFlow(flyt.NewNode())
+		flyt.WithMaxRetries(sc.StrayFlowRetries)(stray.BaseNode)
+	}
 	return x
 }
 
@@ -689,6 +772,7 @@ func (x *Exec) RunOnce() (out Outcome) {
 	x.events = nil
 	x.seq = 0
 	x.mu.Unlock()
+	x.seenCtx, x.ctxFlagged = nil, false
 	x.cancelSeq = -1
 	var ctx context.Context = context.Background()
 	var stop func() = func() {}
@@ -699,6 +783,15 @@ func (x *Exec) RunOnce() (out Outcome) {
 		if x.Sc.Inject.Kind == "pre-cancel" {
 			cf()
 		}
+	case "trip-at-check": // the context is cancelled right after the library's At-th Err() check (counted from 1)
+		f := newFakeCtx()
+		f.tripAt = int64(x.Sc.Inject.At)
+		f.onTrip = func() {
+			x.mu.Lock()
+			x.cancelSeq = x.seq // ordinal of the next callback, if any
+			x.mu.Unlock()
+		}
+		ctx = f
 	case "far-deadline": // a real deadline At milliseconds away that is NOT supposed to be reached; the run is discarded if it was
 		c, cf := context.WithTimeout(context.Background(), time.Duration(x.Sc.Inject.At)*time.Millisecond)
 		ctx, stop = c, cf
